@@ -13,7 +13,7 @@ pub struct KeyDump {
 
 pub type Keyspace = BTreeMap<Vec<u8>, KeyDump>;
 
-fn bulk_items(v: &RespValue) -> Option<Vec<Vec<u8>>> {
+pub fn bulk_items(v: &RespValue) -> Option<Vec<Vec<u8>>> {
     match v {
         RespValue::Array(Some(items)) => {
             let mut out = Vec::new();
@@ -29,84 +29,108 @@ fn bulk_items(v: &RespValue) -> Option<Vec<Vec<u8>>> {
     }
 }
 
+/// The command that reads the full value of a key of type `ty`.
+pub fn value_cmd(ty: &str, k: &[u8]) -> Option<Argv> {
+    Some(match ty {
+        "string" => argv_b(&[b"GET", k]),
+        "list" => argv_b(&[b"LRANGE", k, b"0", b"-1"]),
+        "set" => argv_b(&[b"SMEMBERS", k]),
+        "hash" => argv_b(&[b"HGETALL", k]),
+        "zset" => argv_b(&[b"ZRANGE", k, b"0", b"-1", b"WITHSCORES"]),
+        _ => return None,
+    })
+}
+
+/// Canonical rendering of the reply of `value_cmd`.
+pub fn render_value(ty: &str, r: &RespValue) -> String {
+    match ty {
+        "string" | "list" => show(r),
+        "set" => {
+            let mut m = bulk_items(r).unwrap_or_default();
+            m.sort();
+            format!("{{{}}}", m.iter().map(|x| esc(x)).collect::<Vec<_>>().join(","))
+        }
+        "hash" => {
+            let flat = bulk_items(r).unwrap_or_default();
+            let mut pairs: Vec<(Vec<u8>, Vec<u8>)> = flat
+                .chunks(2)
+                .map(|c| (c[0].clone(), c.get(1).cloned().unwrap_or_default()))
+                .collect();
+            pairs.sort();
+            format!(
+                "{{{}}}",
+                pairs.iter().map(|(f, v)| format!("{}={}", esc(f), esc(v))).collect::<Vec<_>>().join(",")
+            )
+        }
+        "zset" => match bulk_items(r) {
+            // canonical: member@score with the score re-rendered from its parsed value
+            Some(flat) if flat.len() % 2 == 0 => format!(
+                "[{}]",
+                flat.chunks(2)
+                    .map(|c| {
+                        let sc = match crate::model::string2d(&c[1]) {
+                            Some(f) => crate::model::fmt_score(f),
+                            None => format!("?{}", esc(&c[1])),
+                        };
+                        format!("{}@{}", esc(&c[0]), sc)
+                    })
+                    .collect::<Vec<_>>()
+                    .join(",")
+            ),
+            _ => show(r),
+        },
+        _ => "?".to_string(),
+    }
+}
+
+pub fn keys_failed() -> Keyspace {
+    let mut out = Keyspace::new();
+    out.insert(
+        b"<KEYS failed>".to_vec(),
+        KeyDump {
+            ty: "?".into(),
+            val: "?".into(),
+            pttl: 0,
+        },
+    );
+    out
+}
+
+pub fn type_name(r: RespValue) -> String {
+    match r {
+        RespValue::SimpleString(s) => s.to_string(),
+        other => show(&other),
+    }
+}
+
+pub fn insert_key(out: &mut Keyspace, k: &[u8], ty: String, val: String, pttl_reply: RespValue) {
+    let pttl = match pttl_reply {
+        RespValue::Integer(i) => i,
+        _ => i64::MIN,
+    };
+    // duplicate keys in KEYS output (a key with two homes) are made visible
+    let mut name = k.to_vec();
+    while out.contains_key(&name) {
+        name.extend_from_slice(b"<dup>");
+    }
+    out.insert(name, KeyDump { ty, val, pttl });
+}
+
 /// Dump the visible keyspace using only commands. `exec` runs one command on the system.
 pub fn dump_via<F: FnMut(&Argv) -> RespValue>(mut exec: F) -> Keyspace {
     let mut out = Keyspace::new();
     let keys = match bulk_items(&exec(&argv_b(&[b"KEYS", b"*"]))) {
         Some(k) => k,
-        None => {
-            out.insert(
-                b"<KEYS failed>".to_vec(),
-                KeyDump {
-                    ty: "?".into(),
-                    val: "?".into(),
-                    pttl: 0,
-                },
-            );
-            return out;
-        }
+        None => return keys_failed(),
     };
     for k in keys {
-        let ty = match exec(&argv_b(&[b"TYPE", &k])) {
-            RespValue::SimpleString(s) => s.to_string(),
-            other => show(&other),
+        let ty = type_name(exec(&argv_b(&[b"TYPE", &k])));
+        let val = match value_cmd(&ty, &k) {
+            Some(c) => render_value(&ty, &exec(&c)),
+            None => "?".to_string(),
         };
-        let val = match ty.as_str() {
-            "string" => show(&exec(&argv_b(&[b"GET", &k]))),
-            "list" => show(&exec(&argv_b(&[b"LRANGE", &k, b"0", b"-1"]))),
-            "set" => {
-                let mut m = bulk_items(&exec(&argv_b(&[b"SMEMBERS", &k]))).unwrap_or_default();
-                m.sort();
-                format!("{{{}}}", m.iter().map(|x| esc(x)).collect::<Vec<_>>().join(","))
-            }
-            "hash" => {
-                let flat = bulk_items(&exec(&argv_b(&[b"HGETALL", &k]))).unwrap_or_default();
-                let mut pairs: Vec<(Vec<u8>, Vec<u8>)> = flat
-                    .chunks(2)
-                    .map(|c| (c[0].clone(), c.get(1).cloned().unwrap_or_default()))
-                    .collect();
-                pairs.sort();
-                format!(
-                    "{{{}}}",
-                    pairs
-                        .iter()
-                        .map(|(f, v)| format!("{}={}", esc(f), esc(v)))
-                        .collect::<Vec<_>>()
-                        .join(",")
-                )
-            }
-            "zset" => {
-                // canonical: member@score with the score re-rendered from its parsed value
-                let r = exec(&argv_b(&[b"ZRANGE", &k, b"0", b"-1", b"WITHSCORES"]));
-                match bulk_items(&r) {
-                    Some(flat) if flat.len() % 2 == 0 => format!(
-                        "[{}]",
-                        flat.chunks(2)
-                            .map(|c| {
-                                let sc = match crate::model::string2d(&c[1]) {
-                                    Some(f) => crate::model::fmt_score(f),
-                                    None => format!("?{}", esc(&c[1])),
-                                };
-                                format!("{}@{}", esc(&c[0]), sc)
-                            })
-                            .collect::<Vec<_>>()
-                            .join(",")
-                    ),
-                    _ => show(&r),
-                }
-            }
-            _ => "?".to_string(),
-        };
-        let pttl = match exec(&argv_b(&[b"PTTL", &k])) {
-            RespValue::Integer(i) => i,
-            _ => i64::MIN,
-        };
-        // duplicate keys in KEYS output (a key with two homes) are made visible
-        let mut name = k.clone();
-        while out.contains_key(&name) {
-            name.extend_from_slice(b"<dup>");
-        }
-        out.insert(name, KeyDump { ty, val, pttl });
+        let pttl = exec(&argv_b(&[b"PTTL", &k]));
+        insert_key(&mut out, &k, ty, val, pttl);
     }
     out
 }
